@@ -206,9 +206,9 @@ Definition op_pre (fl : flags) (g : graph) (o : op) : bool :=
   end.
 
 (* the library as it is at /repo HEAD: none of the proposed repairs C07-3..6 *)
-Definition flags_off : flags := mkFlags false false false false false false false false false false.
+Definition flags_off : flags := mkFlags false false false false false false false false false false false.
 (* ... with all of them *)
-Definition flags_on : flags := mkFlags true true true true true true true true true true.
+Definition flags_on : flags := mkFlags true true true true true true true true true true true.
 
 Definition hstep := (op * list str * list str)%type.   (* call, ids drawn from uuid4, iteration-order hint *)
 Fixpoint run_hist (sub : bool) (fl : flags) (g : graph) (h : list hstep) : graph :=
